@@ -169,9 +169,9 @@ def _run_lin(case):
 # --------------------------------------------------------------------------- feature models
 def _pool_feat(tier):
     # (Dx, Dy, Dk, Rq, N)
-    base = [(1, 1, 1, 1, 1), (1, 2, 2, 2, 2), (2, 1, 2, 1, 1), (2, 2, 3, 2, 2), (1, 3, 3, 1, 3), (2, 2, 1, 3, 1)]
+    base = [(1, 1, 1, 1, 1), (1, 2, 2, 2, 2), (2, 1, 2, 1, 1), (2, 2, 3, 2, 2), (1, 3, 3, 1, 3), (2, 2, 1, 3, 1), (3, 2, 4, 2, 2), (4, 3, 5, 1, 1), (1, 2, 5, 2, 1)]
     if tier == "thorough":
-        base += [(2, 3, 2, 1, 2), (1, 1, 3, 3, 3), (2, 1, 1, 2, 3), (1, 2, 1, 1, 2)]
+        base += [(2, 3, 2, 1, 2), (1, 1, 3, 3, 3), (2, 1, 1, 2, 3), (1, 2, 1, 1, 2), (3, 3, 2, 3, 2), (5, 1, 3, 1, 1), (2, 2, 5, 2, 2)]
     return base
 
 
@@ -190,6 +190,48 @@ def _strategy_feat(shapes):
     return s()
 
 
+def _elc_feature_closed(M, b, S, forms, mq, Sq, Dy, Dx):
+    """E_q ln N(y; M [x; k(x)] + b, S) for q over z=(y,x) from closed-form Gaussian-kernel expectations."""
+    L = oracle.inv_spd(S[None])[0]
+    ld, ls = oracle.slogdet_spd(S[None])
+    Mx, Mk = M[:, :Dx], M[:, Dx:]
+    my, mx = mq[:Dy], mq[Dy:]
+    Syy, Syx, Sxx = Sq[:Dy, :Dy], Sq[:Dy, Dy:], Sq[Dy:, Dy:]
+    Ek, Ekx, Ekk = oracle.kernel_moments(mx, Sxx, forms)
+    G = Syx @ oracle.inv_spd(Sxx[None])[0]
+    # r = y - Mx x - b  (linear-Gaussian part)
+    Amat = np.concatenate([np.eye(Dy), -Mx], 1)
+    er = Amat @ mq - b
+    t_lin = np.trace(L @ Amat @ Sq @ Amat.T) + er @ L @ er
+    # E[r k_i] = (E[y|x] - Mx x - b) k_i integrated: (my - G mx - b) E k_i + (G - Mx) E[x k_i]
+    Erk = np.outer(my - G @ mx - b, Ek) + (G - Mx) @ Ekx.T  # [Dy, Dk]
+    t_cross = np.trace(L @ Erk @ Mk.T)
+    t_kk = np.trace(Mk.T @ L @ Mk @ Ekk)
+    val = -0.5 * (t_lin - 2 * t_cross + t_kk + ld[0] + Dy * oracle.LN2PI)
+    sc = 1.0 + 0.5 * (abs(t_lin) + 2 * abs(t_cross) + abs(t_kk) + ls[0] + Dy * oracle.LN2PI)
+    return val, sc
+
+
+def _elcy_feature_closed(M, b, S, forms, y, mx, Sx, Dy, Dx):
+    """E_{p(x)} ln N(y; M [x; k(x)] + b, S) for a fixed y."""
+    mq = np.concatenate([y, mx])
+    Sq = np.zeros((Dy + Dx, Dy + Dx))
+    Sq[Dy:, Dy:] = Sx
+    # a point mass in y: reuse the joint formula with Syy = Syx = 0 (G = 0)
+    L = oracle.inv_spd(S[None])[0]
+    ld, ls = oracle.slogdet_spd(S[None])
+    Mx, Mk = M[:, :Dx], M[:, Dx:]
+    Ek, Ekx, Ekk = oracle.kernel_moments(mx, Sx, forms)
+    er = y - Mx @ mx - b
+    t_lin = np.trace(L @ Mx @ Sx @ Mx.T) + er @ L @ er
+    Erk = np.outer(y - b, Ek) - Mx @ Ekx.T
+    t_cross = np.trace(L @ Erk @ Mk.T)
+    t_kk = np.trace(Mk.T @ L @ Mk @ Ekk)
+    val = -0.5 * (t_lin - 2 * t_cross + t_kk + ld[0] + Dy * oracle.LN2PI)
+    sc = 1.0 + 0.5 * (abs(t_lin) + 2 * abs(t_cross) + abs(t_kk) + ls[0] + Dy * oracle.LN2PI)
+    return val, sc
+
+
 def _gh(mu, Sig, g, n):
     X, w = oracle.gauss_hermite_nd(mu, Sig, n)
     v = g(X)
@@ -205,6 +247,7 @@ def _run_feat(case):
     kind = case["kind"]
     Dx, Dy, Rq, N = case["Dx"], case["Dy"], case["Rq"], case["N"]
     M, b, S, kfun = libx.feature_np(case["c"])
+    forms = oracle.kernel_forms(case["c"])
     L = oracle.inv_spd(S[None])[0]
     ld, ls = oracle.slogdet_spd(S[None])
     const = ld[0] + Dy * oracle.LN2PI
@@ -229,11 +272,17 @@ def _run_feat(case):
             e = my[None] + (X - mxq[None]) @ G.T - mean_fn(X)
             return -0.5 * (np.einsum("qi,ij,qj->q", e, L, e) + trc + const)
 
-        v1, a1 = _gh(mxq, Sxx, g, 48)
-        v2, a2 = _gh(mxq, Sxx, g, 64)
-        want[r], scale[r] = v2, 1.0 + a2 + ls[0]
-        if abs(v1 - v2) > 1e-10 * scale[r]:
-            conv = False
+        cf, cfs = _elc_feature_closed(M, b, S, forms, mq[r], Sq[r], Dy, Dx)
+        if Dx <= 2:
+            v1, a1 = _gh(mxq, Sxx, g, 48)
+            v2, a2 = _gh(mxq, Sxx, g, 64)
+            want[r], scale[r] = v2, 1.0 + a2 + ls[0]
+            if abs(v1 - v2) > 1e-10 * scale[r]:
+                conv = False
+            elif abs(cf - v2) > 1e-7 * (scale[r] + cfs):
+                raise AssertionError(f"closed-form and quadrature oracles disagree: {cf} vs {v2}")  # oracle error -> harness
+        else:
+            want[r], scale[r] = cf, cfs
     kS = max(1.0, float(oracle.cond(S[None])[0]))
     tag = f"integrate_log_conditional[{kind}]"
     if not conv:
@@ -261,11 +310,17 @@ def _run_feat(case):
             e = y[n][None] - mean_fn(X)
             return -0.5 * (np.einsum("qi,ij,qj->q", e, L, e) + const)
 
-        v1, a1 = _gh(mx[r], Sx[r], g, 48)
-        v2, a2 = _gh(mx[r], Sx[r], g, 64)
-        wy[n], sy[n] = v2, 1.0 + a2 + ls[0]
-        if abs(v1 - v2) > 1e-10 * sy[n]:
-            conv = False
+        cf, cfs = _elcy_feature_closed(M, b, S, forms, y[n], mx[r], Sx[r], Dy, Dx)
+        if Dx <= 2:
+            v1, a1 = _gh(mx[r], Sx[r], g, 48)
+            v2, a2 = _gh(mx[r], Sx[r], g, 64)
+            wy[n], sy[n] = v2, 1.0 + a2 + ls[0]
+            if abs(v1 - v2) > 1e-10 * sy[n]:
+                conv = False
+            elif abs(cf - v2) > 1e-7 * (sy[n] + cfs):
+                raise AssertionError(f"closed-form and quadrature oracles disagree: {cf} vs {v2}")  # oracle error -> harness
+        else:
+            wy[n], sy[n] = cf, cfs
     tag = f"integrate_log_conditional_y[{kind}]"
     if not conv:
         fails.append(Failure("excluded:oracle_unconverged", tag))
@@ -290,5 +345,5 @@ SUBS = [
         examples={"quick": 100, "thorough": 500}, shards={"quick": 8, "thorough": 14}, rule="Dx+Dy>=3 or Rq>=2"),
     Sub("feature", _pool_feat, _strategy_feat, _run_feat, lambda c: c["Dk"] >= 2 or c["Dx"] >= 2,
         lambda c: [f"kind={c['kind']}", f"Dx={c['Dx']}", f"px={c['px_mode']}", f"give_px={c['give_px']}"],
-        examples={"quick": 50, "thorough": 300}, shards={"quick": 6, "thorough": 10}, rule="Dk>=2 or Dx>=2"),
+        examples={"quick": 40, "thorough": 250}, shards={"quick": 9, "thorough": 16}, rule="Dk>=2 or Dx>=2"),
 ]
